@@ -475,7 +475,20 @@ struct Bfs {
           const std::string hd = hist_desc(sys, n.seed, n.hist);
           c.bfs_replay = replay_text(n.seed, n.hist, nullptr);
           c.begin(hd);
-          auto obj = replay(sys, n);
+          std::unique_ptr<typename Sys::Obj> obj;
+          if constexpr (requires { sys.requery_parent; }) {
+            // query - mutate - query on the representative history: run the state battery on the PARENT state of the same object,
+            // then apply the last operation, then (below) the battery again - answers cached by the first battery and not
+            // invalidated by the operation become visible
+            if (sys.requery_parent && !n.hist.empty()) {
+              obj = sys.fresh(n.seed);
+              for (size_t k = 0; k + 1 < n.hist.size(); ++k) sys.apply(*obj, n.hist[k], nullptr, "");
+              sys.check_state(*obj, c, hd);
+              sys.apply(*obj, n.hist.back(), nullptr, "");
+              c.rep.count("requeried_parent_states");
+            }
+          }
+          if (!obj) obj = replay(sys, n);
           if (!(hash_of(sys.key(*obj)) == n.key)) { fprintf(stderr, "HARNESS-NONDETERMINISM: canon-on-replay mismatch for %s\n", hd.c_str()); fflush(stderr); _exit(4); }
           sys.check_state(*obj, c, hd);
           c.rep.count("states_checked");
